@@ -224,11 +224,17 @@ Next == UNCHANGED app
 
 LawsHold == Mode = "laws" => Laws
 
+\* results the documentation equally allows besides the model's (the library must give one of them)
+Alts == IF app.n = "slice" /\ app.args[1].t = "int" /\ app.args[1].n < 0 /\ app.l.t \in {"str", "arr"}
+           /\ SizeOf(app.l) + app.args[1].n < 0
+        THEN <<IF app.l.t = "str" THEN Str("") ELSE Arr(<<>>)>>      \* a start before the beginning selects nothing
+        ELSE <<>>
+
 Export ==
   Mode = "apps" =>
     LET r == Apply(app.n, app.l, app.args, CfgD) IN
     IF IsErr(r) /\ r.cls = "UNSPEC" THEN TRUE
-    ELSE Serialize(ToJson([focus |-> Focus, filter |-> app.n, left |-> app.l, args |-> app.args,
+    ELSE Serialize(ToJson([focus |-> Focus, filter |-> app.n, left |-> app.l, args |-> app.args, alts |-> Alts,
                            ok |-> ~IsErr(r), result |-> IF IsErr(r) THEN Nil ELSE r, err |-> IF IsErr(r) THEN r.cls ELSE ""]) \o "\n",
                    IOEnv.OUT_FILE, [format |-> "TXT", charset |-> "UTF-8", openOptions |-> <<"WRITE", "CREATE", "APPEND">>]).exitValue = 0
 =============================================================================
